@@ -218,3 +218,7 @@ Definition reduce_acyclic_b (g : grammar) (T : table) : bool :=
   let n := length (t_states T) in
   forallb (fun a => match red_iter g T a (S n) (seq 0 n) with [] => true | _ => false end)
           (seq 0 (g_nterm g)).
+
+(* every state expects at least one token (C12: non-empty expected list) *)
+Definition has_actions_b (T : table) : bool :=
+  forallb (fun st => match s_sorted st with [] => false | _ => true end) (t_states T).
